@@ -1,6 +1,6 @@
 """C02 - bisync never loses a file version."""
 import vlib
-from . import common
+from . import common, nameclash
 
 TB = ["modelled, not verified: both directories as maps path -> bytes of regular files (no symlinks, modes, file/directory clashes between the trees - the property's stated domain); discover_local_fingerprints = BLAKE3 of every file; copy_atomic = read the source now, replace the destination; the archive file as an optional map path -> digest (None = absent / damaged / foreign, decided by Archive::load); BLAKE3 = quantified Hh (premise: no collision between the two files of one path; across a history: injective on the contents in play), executed with the real digests supplied by the harness; PathBuf order = quantified kle (nothing assumed about it by the proofs), executed as component-wise byte order",
       "premise of the theorems, not of the tie: Fresh = for every both-changed path of the plan with loser l and conflict name q: each side holds at q nothing or exactly l, and if exactly one side holds it the record for q is not l's digest (so q absent, l on both sides = the repeated conflict, and l on one side with no/another record = a crash leftover are inside); and distinct both-changed paths have distinct conflict names (proved automatic for the real name format: C06_conflict_name_format_injective). Outside Fresh nothing is proved; it is the documented known class F5 and both parts are shown real by closed witness theorems: (i) q live with another content - an edited conflict copy is overwritten on both sides (C02_name_clash_loses_version); (ii) l at q on exactly one side and recorded - the planned delete removes the re-created copy and the trees end up different (C06_name_clash_one_sided_diverges). The generated histories never write or delete a conflict copy, so the tie stays inside Fresh",
@@ -16,7 +16,7 @@ def run(prop, tier, seed, replay, only=" C02 ", tb=TB):
     res = common.correspondence(v, st, prop, "c02", "cbisync", tier, seed, replay, profiles=("release",), extra=extra,
                                 model_desc="Model/Bisync.v (hrun: state after every operation, exit and plan of every run)",
                                 impl_desc="real `copia bisync` on generated histories", only=only)
-    common.verdict(v, st, prop, res)
+    common.verdict(v, st, prop, res, nameclash.known_match)
     common.proof_coverage(v, st, prop, tb)
     v.coverage.update(dict(
         evaluations=res["evals"], distinct_nontrivial=res["distinct"], rule=RULE,
